@@ -203,6 +203,7 @@ def cea_outcome(result: int) -> bool:
         sock = b.sock(c)
         st0 = c.state
         b.inject(c, B.cea(PEER, result=result))
+        WORLD.settle(n)                  # the connection thread reacts to the reader's wake-up (it owns the sockets)
         later = drain(c)
         obs = ([x[:2] for x in B.summarize(first)], st0, c.state, c.ident in n.connections, p.disconnect_reason, len(later), b.apps[0].is_ready.is_set(),
                sock.closed)
